@@ -14,7 +14,7 @@ CLAIMED = {
               "emit_code, parse_and_bind, every wasm_bindgen export) no call that exposes hash-iteration order, reads "
               "clock/environment/pid/file system/RNG/addresses, or touches process-lifetime state in beff-core is "
               "reachable in the resolved call graph. Every hash-container call is classified (unknown API fails closed). "
-              "This is the right level because determinism is a statement about which APIs can influence a value on any path. Also C10.4 (= C14.7): cache-only module lookups never take a key out of an import/export table (what the session has loaded is an ambient input); C10.5 (= C14.8): parsed modules are not changed by compiling them."),
+              "This is the right level because determinism is a statement about which APIs can influence a value on any path. Also C10.4 (= C14.7): cache-only module lookups never take a key out of an import/export table (what the session has loaded is an ambient input); C10.5 (= C14.8): parsed modules are not changed by compiling them; C10.6: twin accessors agree."),
         note=("Trusted: rustc's MIR and trait resolution; the call-graph over-approximation (closures, fn pointers, callbacks "
               "through local impls of foreign traits); dependency crates (swc, serde_json, std) are assumed deterministic and "
               "are not analysed."),
@@ -31,7 +31,7 @@ CLAIMED["C14"] = dict(
           "process-lifetime state on both sides of the wasm boundary is closed (new static / new field of the cache ADT / new "
           "module-level JS binding fails the check); host queries reachable from the cached computation and never-invalidated "
           "JS caches are reported (2 known findings). A per-path static argument is the right level because the property "
-          "quantifies over all edit histories. Also C14.7: FileManager::get_existing_file is never asked for a file named by an import/export table entry or a resolver answer. Also C14.8: nothing reachable from ParsedModule has interior mutability and the swc comment map is never mutated outside the parser."),
+          "quantifies over all edit histories. Also C14.7: FileManager::get_existing_file is never asked for a file named by an import/export table entry or a resolver answer. Also C14.8: nothing reachable from ParsedModule has interior mutability and the swc comment map is never mutated outside the parser. Also C14.9: the twin accessors get_type / get_value agree."),
     note=("Trusted: rustc MIR normal edges (panics out of scope), swc AST of ts-node/*.ts, the reviewed inventory table. "
           "Histories are not executed; the JS host callbacks are assumed to return current disk state."),
     design="DESIGN.md section 3, C14",
@@ -77,7 +77,7 @@ CLAIMED["C05"] = dict(
           "touches that family's tables/accessors/constructors (this rule found the named-tuple memo bug, repaired by a fix: "
           "commit); co-inductive memo typestate of both emptiness entry points (lookup first, Undefined read as IsEmpty, "
           "in-progress mark dominates the recursive computation, same key updated afterwards); polarity of the BDD path walk "
-          "and the conjunction table of and_empty_status (truth table). Added later: in the recursive emptiness procedures no owned scratch value defined before a loop is written in the loop and handed to the recursive call without being re-created or restored per iteration (C05.6, with canary controls). Also C05.inv: the C06 arm rules are re-run, since a wrong difference flips assignability."),
+          "and the conjunction table of and_empty_status (truth table). Added later: in the recursive emptiness procedures no owned scratch value defined before a loop is written in the loop and handed to the recursive call without being re-created or restored per iteration (C05.6, with canary controls). Also C05.inv: the C06 arm rules are re-run, since a wrong difference flips assignability. Also C05.7: twin procedures of the engine agree on their abstract signatures."),
     note=("Trusted: rustc typed HIR/MIR, the family naming scheme. Not decided: the emptiness procedures themselves "
           "(Frisch's Phi' on lists, exact-vs-open mapping difference, index signatures) - value-level correctness of all "
           "atom tables has no sound static argument in reach; relies on C06 for the set operations."),
@@ -92,7 +92,7 @@ CLAIMED["C07"] = dict(
           "top level (1 known finding: Exclude<number,1> -> Not<1> -> printer panic); the generated-name counter is only "
           "incremented, threaded by &mut from the frontend, and every helper definition returned is inserted with its result "
           "propagated; tag / proper-subtype / atom dispatch has no value-returning catch-all; maybe_not is always called with "
-          "`!allowed` of the enclosing arm and Not wraps exactly the negative atoms of a clause. Also C07.6: an atom fetched from one of the four atom tables only reaches materialisers that build that family's form (interprocedural flow through helper parameters)."),
+          "`!allowed` of the enclosing arm and Not wraps exactly the negative atoms of a clause. Also C07.6: an atom fetched from one of the four atom tables only reaches materialisers that build that family's form (interprocedural flow through helper parameters). Also C07.7: twin materialisers agree."),
     note=("Trusted: rustc typed HIR/MIR. Not decided: that the materialised Runtype denotes the same value set as the semantic "
           "type (keyof / indexed-access projections, union-of-complements), which quantifies over all values."),
     design="DESIGN.md section 3, C07",
@@ -121,7 +121,7 @@ CLAIMED["C09"] = dict(
           "locals up by the original name; `export {A as B} from` looks A up in the other module and registers B; every kind "
           "of import that an export list can mention registers an export (this rule found the dropped default re-export, "
           "repaired by a fix: commit); the identity types of named types derive Eq/Ord/Hash over all fields incl. the file; "
-          "the lossy file-name mangling has no collision check (1 known finding, reproduced). Also C09.7: the file suffix of a disambiguated name is cut at a min-reduction over all same-named files. Also C09.8: the expression of another module's default export is handed on with the anchor of that export record."),
+          "the lossy file-name mangling has no collision check (1 known finding, reproduced). Also C09.7: the file suffix of a disambiguated name is cut at a min-reduction over all same-named files. Also C09.8: the expression of another module's default export is handed on with the anchor of that export record. Also C09.9: the type-side and value-side twins of name resolution agree on their abstract signatures (reviewed differences tabled)."),
     note=("Trusted: rustc typed HIR and impl facts. Not decided: equality with the single-file result for all layouts "
           "(relational over programs); the walkers' resolution order; .d.ts/.tsx handling."),
     design="DESIGN.md section 3, C09",
@@ -136,7 +136,7 @@ CLAIMED["C13"] = dict(
           "ch/maj have their truth tables; schedule recurrence, T1/T2, state rotation, feed-forward, padding byte, threshold "
           "(> 56), big-endian length field and word load. Per class: every structural constructor field is read by hash256(), "
           "tags are pairwise distinct, every collection loop is length-prefixed, optional parts are tagged on both branches, "
-          "no digest reads metadata/names or iterates unsorted keys, cycle bookkeeping is paired. Added later: module constants are resolved before the arithmetic is compared; the in-progress table of the digest context is keyed by the referenced validator, never by a name (cycle-table-key)."),
+          "no digest reads metadata/names or iterates unsorted keys, cycle bookkeeping is paired. Added later: module constants are resolved before the arithmetic is compared; the in-progress table of the digest context is keyed by the referenced validator, never by a name (cycle-table-key). Also C13.5: hash()/hash256() read every constructor argument they read on the reviewed tree."),
     note=("Trusted: swc AST; the re-derivation of FIPS 180-4 in rules/c13.py; the 4-entry derived-field table. Not decided: "
           "collision-freedom beyond coverage+framing, buffer arithmetic across block boundaries (boundary-value behaviour), "
           "TextEncoder."),
@@ -165,7 +165,7 @@ CLAIMED["C02"] = dict(
           "every key of every schema object literal is a Draft 2020-12 keyword (plus discriminator) and every literal or "
           "field-typed `type` lies in the seven JSON Schema type names; prefixItems comes with minItems and pattern is a RegExp "
           "source (both were violated and repaired by fix: commits); every getRef(n) is preceded by the ensure-definition "
-          "sequence for n. Added later: index-signature schemas keep both key and value constraint (C02.5); the allOf merge takes every member's whole `required` list (C02.6). Also C02.7-C02.10 and the schema-array clause of C02.3: facade contexts are created per call; dictionaries keyed by type names have no prototype; no computed String.replace pattern; a lossy name sanitiser keeps a collision record; anyOf / prefixItems are never printed empty (2 known findings)."),
+          "sequence for n. Added later: index-signature schemas keep both key and value constraint (C02.5); the allOf merge takes every member's whole `required` list (C02.6). Also C02.7-C02.10 and the schema-array clause of C02.3: facade contexts are created per call; dictionaries keyed by type names have no prototype; no computed String.replace pattern; a lossy name sanitiser keeps a collision record; anyOf / prefixItems are never printed empty (2 known findings). Also C02.11: schema() reads every constructor argument it read on the reviewed tree."),
     note=("Trusted: swc AST, the keyword list. Not decided: agreement on documents (required vs optional through "
           "removeNullUnionBranch, allOf merge, index signatures) - value-level over all documents."),
     design="DESIGN.md section 3, C02",
@@ -181,7 +181,7 @@ CLAIMED["C03"] = dict(
           "in any validate / parseAfterValidation / reportDecodeError or in the error helpers; explicit throws are the three "
           "reviewed post-validation ones; no assignment/delete/mutator call is rooted at an input-derived object; the two "
           "objectKeyOrder branches use the same membership test. The rules found three defect families (10 sites), all "
-          "repaired by fix: commits. Added later: results of a child's parseAfterValidation count as input-derived (opaque leaves and `any` hand the input back) and Object.assign/defineProperty/freeze count as writes to their first argument. Also C03.7: index-signature validators are applied to undeclared keys only."),
+          "repaired by fix: commits. Added later: results of a child's parseAfterValidation count as input-derived (opaque leaves and `any` hand the input back) and Object.assign/defineProperty/freeze count as writes to their first argument. Also C03.7: index-signature validators are applied to undeclared keys only. Also C03.8: parseAfterValidation() reads every constructor argument it read on the reviewed tree."),
     note=("Trusted: swc AST, declared Record<..> annotations, the taint model (no inter-procedural flow beyond the listed "
           "helpers). Not decided: re-validation / idempotence of parsed output, leaf preservation through deepmerge."),
     design="DESIGN.md section 3, C03",
@@ -205,7 +205,7 @@ CLAIMED["C12"] = dict(
           "reporter ends in an unconditional error (found: surplus tuple items - fixed; intersections of non-object types - "
           "known finding); pushPath/popPath pair up without an intervening return and the value reported under key k is "
           "input[k]; the union reporter restores ctx.path; error building/rendering never stringifies received values "
-          "outside try/catch. Also C12.5: re-basing an error (spread + new path) leaves its nested errors alone."),
+          "outside try/catch. Also C12.5: re-basing an error (spread + new path) leaves its nested errors alone. Also C12.6: reportDecodeError() reads every constructor argument it read on the reviewed tree."),
     note="Trusted: swc AST; the atom vocabulary of rejection tests. Not decided: union filtering by depth, determinism of rendering.",
     design="DESIGN.md section 3, C12",
 )
@@ -219,7 +219,7 @@ CLAIMED["C01"] = dict(
           "constructor's arity and literal arguments inside the declared literal unions (1 known finding: "
           "TypeofRuntype(\"function\")); template-literal regexes are matched against the whole string (was violated; "
           "fixed); escape_regex covers all 15 syntax characters, backslash first; all 22 concrete runtime classes implement "
-          "all 8 interface methods; typed-array names agree with the 11 ECMAScript globals on both sides. Added later: the intersection smart constructor merges object members only when the stored values are equal (C01.6); the printer never takes a struct-like IR variant apart while ignoring one of its fields, e.g. the index signature of an object shape (C01.7). Also C01.8: scope stacks (pushed-and-popped Vec<(String, _)>) are searched innermost-first."),
+          "all 8 interface methods; typed-array names agree with the 11 ECMAScript globals on both sides. Added later: the intersection smart constructor merges object members only when the stored values are equal (C01.6); the printer never takes a struct-like IR variant apart while ignoring one of its fields, e.g. the index signature of an object shape (C01.7). Also C01.8: scope stacks (pushed-and-popped Vec<(String, _)>) are searched innermost-first. Generic cross-checks: twin agreement (C01.9) and constructor-argument coverage of validate() (C01.10)."),
     note=("Trusted: rustc typed HIR, swc AST. The behavioural core of C01 (the validator accepts exactly the members of the "
           "type, for all programs and values) has no sound static argument in reach and is not decided."),
     design="DESIGN.md section 3, C01",
@@ -233,7 +233,7 @@ CLAIMED["C15"] = dict(
           "keyword arm of extract_ts_keyword_type that does not raise a diagnostic or a literal pattern of "
           "maybe_generate_ts_builtin (found `BigInt`; fixed); composite classes print the builtin spellings Array<>, Map<,>, "
           "Set<>, ...Array<>; property keys pass through a quoting step (was violated; fixed); collectDescribeRefs/describe "
-          "test activeRefs/visitedRefs before descending, pair add/delete, and assign definitions under a == null guard. Also C15.6: every return of describeTypeExpr depends on every field the method reads. Also C15.7: the children walk of the reference-counting pass does not depend on context state."),
+          "test activeRefs/visitedRefs before descending, pair add/delete, and assign definitions under a == null guard. Also C15.6: every return of describeTypeExpr depends on every field the method reads. Also C15.7: the children walk of the reference-counting pass does not depend on context state. Also C15.8: the describe methods read every constructor argument they read on the reviewed tree."),
     note="Trusted: rustc typed HIR, swc AST. Not decided: equality (acceptance and hash256) of the second-generation validator.",
     design="DESIGN.md section 3, C15",
 )
